@@ -121,7 +121,9 @@ def build_case(rng, root):
             else:
                 kind = rng.choice(('lua', 'lua', 'p8', 'p8', 'png'))
                 sub = rng.choice(('', '', 'lib/', 'lib/deep/'))
-                name = '%s%s%d' % (sub, rng.choice(('inc', 'mod_', 'T')), inc_i)
+                name = '%s%s%d' % (sub, rng.choice(('inc', 'mod_', 'T', 'cart.p8.v', 'tools.lua.x', 'a.p8.png.b')), inc_i)
+                if '.p8' in name or '.lua' in name:
+                    feats.add('name_with_embedded_extension')
                 tabs = rng.choice((0, 0, 1, 3)) if kind != 'lua' else 0
                 fin = rng.random() < 0.6
                 code = make_code(rng, tabs, fin, nested=rng.random() < 0.3)
@@ -163,12 +165,39 @@ def build_case(rng, root):
             directive = lead + b'#include' + gap + (name + ext).encode() + ((':%d' % sel).encode() if sel is not None else b'') + trail + b'\n'
             if lead or trail or gap != b' ':
                 feats.add('directive_whitespace_variant')
+            in_comment = rng.random() < 0.12
+            if in_comment:
+                # the directive is recognised line-wise, also between the lines of a block comment
+                cart_lines.append(b'--[[ disabled for now\n')
+                for alt in expected:
+                    alt.append(b'--[[ disabled for now\n')
+                feats.add('include_inside_block_comment')
             cart_lines.append(directive)
             tl = lines_of(stored)
+            if in_comment:
+                tl = list(tl) + [b']]\n']
+                # whatever is spliced must not close the comment early or leave it open: use a target without brackets
+                if any(b']]' in l or b'[[' in l for l in tl[:-1]):
+                    tl = None
+            if tl is None:
+                # fall back: not inside a comment after all
+                cart_lines.pop(-2)
+                for alt in expected:
+                    alt.pop()
+                feats.discard('include_inside_block_comment')
+                in_comment = False
+                tl = lines_of(stored)
+            closing = []
+            if in_comment:
+                closing = [tl[-1]]
+                tl = tl[:-1]
             if sel is not None:
                 tl = tab_lines(tl, sel)
             for alt in expected:
                 alt.extend(tl)
+                alt.extend(closing)
+            if in_comment:
+                cart_lines.append(b']]\n')
             feats.add('target_' + kind)
             if sub:
                 feats.add('target_in_subdir')
@@ -202,7 +231,10 @@ def build_case(rng, root):
 
 def run_case(ctx, rng, root):
     cart, exp, glued, feats, desc, missing, code_section, tree = build_case(rng, root)
-    case = {'cart': os.path.relpath(cart, root), 'targets': desc, 'tree': tree, 'expected': exp, 'glued': glued, 'missing': missing}
+    case = {'cart': os.path.relpath(cart, root), 'targets': desc, 'tree': tree, 'expected': exp, 'glued': glued, 'missing': missing,
+            'via_symlink': 'cart_inside_carts_folder' not in feats and rng.random() < 0.15}
+    if case['via_symlink']:
+        feats.add('cart_opened_through_symlinked_directory')
     ctx.case((code_section, tuple(desc), tuple(exp)), nontrivial=bool(desc))
     for f in feats:
         ctx.feature(f)
@@ -214,6 +246,11 @@ def judge(ctx, cart, case):
     from pico8.game import file as p8file
     exp, glued, desc, missing = case['expected'], case['glued'], case['targets'], case['missing']
     root_dir = cart[:cart.index(case['cart'])] if case['cart'] in cart else os.path.dirname(cart)
+    if case.get('via_symlink'):
+        link = os.path.join(root_dir, 'linked_workdir')
+        if not os.path.lexists(link):
+            os.symlink(os.path.dirname(cart), link)
+        cart = os.path.join(link, os.path.basename(cart))
     old_home = os.environ.get('HOME')
     os.environ['HOME'] = os.path.join(root_dir, 'home')
     try:
@@ -277,7 +314,8 @@ def gates(m, tier):
     missed = []
     for k in ('target_lua', 'target_p8', 'target_png', 'target_in_subdir', 'target_no_final_newline', 'tab_selector_inner', 'tab_selector_last',
               'tab_selector_beyond', 'include_first_line', 'include_last_line', 'adjacent_includes', 'several_includes', 'nested_include_literal',
-              'directive_whitespace_variant', 'missing_target', 'png_raw', 'png_compressed', 'includes_0', 'same_target_twice', 'cart_inside_carts_folder'):
+              'directive_whitespace_variant', 'missing_target', 'png_raw', 'png_compressed', 'includes_0', 'same_target_twice', 'cart_inside_carts_folder', 'name_with_embedded_extension', 'include_inside_block_comment',
+              'cart_opened_through_symlinked_directory'):
         if f.get(k, 0) < 5:
             missed.append('%s seen %d times' % (k, f.get(k, 0)))
     if mon.get('splices_compared', 0) < 200:
